@@ -2,10 +2,19 @@
 //!
 //! (a) `smoltcp::wire::checksum::{data, combine, pseudo_header*}` against an independent RFC 1071
 //!     reference, bounded-exhaustive over length x alignment x content classes (`cksum/parta.rs`);
-//! (b) every frame a real `Interface` emits in a scenario suite verifies under the independent
-//!     offsets-only extractor/verifier of `cksum/wirex.rs` (`cksum/partb.rs`);
-//! (c) every single-/double-bit corruption of valid packets whose checksum then fails under the
-//!     independent verifier must have no effect on sockets or replies (`cksum/partc.rs`).
+//! (b) every frame a real `Interface` emits verifies under the independent offsets-only
+//!     extractor/verifier of `cksum/wirex.rs`:
+//!     * `cksum/partb.rs`: Medium::Ip / Ethernet, IPv4 + IPv6, every payload size, every
+//!       ChecksumCapabilities setting (asserted per protocol by the harness's OWN tx table),
+//!       IPv4 fragmentation (2 and 3+ fragments: every fragment header + the reassembled datagram)
+//!       under every ipv4/udp/icmpv4 capability value, DeviceCapabilities::max_burst_size;
+//!     * `cksum/lowpan.rs`: Medium::Ieee802154, two real interfaces, oracle = independent
+//!       802.15.4 / FRAG1-FRAGN / RFC 6282 IPHC + NHC decoder applied to what is on the air, for
+//!       fe80::/64, fd00::/64 and link-local-looking addresses outside fe80::/64;
+//! (c) every single-/double-bit corruption of valid packets (including DHCP replies, checksum
+//!     field boundary values 0x0000/0xffff) whose checksum then fails under the independent
+//!     verifier must have no effect on sockets or replies (`cksum/partc.rs`); 6LoWPAN ingress with
+//!     in-line and elided UDP checksums (`cksum/lowrx.rs`).
 
 mod lowpan;
 mod lowrx;
